@@ -57,4 +57,29 @@ signed long cfg_opt_getnint(cfg_opt_t *opt, unsigned int index)
 __CPROVER_requires(opt == NULL || (__CPROVER_is_fresh(opt, sizeof(*opt)) && opt->values == NULL && opt->simple_value.number == NULL))
 __CPROVER_assigns(__CPROVER_errno)
 __CPROVER_ensures(__CPROVER_return_value == 0);
+/* ---- loops closed by loop contracts (the loop's own contract is the text of CFG_VERIF_LOOP(tag) in cfg_verif_hooks.h)
+ * contract::cfg_numopts / cfg_getnopt: an option array is a block whose entry number cfgv_term_k (ghost) is the first one
+ * without a name; the array may hold up to CFGV_MAXOPTS entries.  Frame: empty.
+ * The "twin" units (-DCFGV_TWIN) state the same precondition without a quantifier for arrays of at most 3 options, for
+ * the SAT back end: an SMT back end that cannot prove a quantified goal answers "unknown", not a counterexample. */
+#ifndef CFGV_MAXOPTS
+#define CFGV_MAXOPTS 1024
+#endif
+extern int cfgv_term_k;
+#ifdef CFGV_TWIN
+#define CFGV_OPTARRAY(a) (0 <= cfgv_term_k && cfgv_term_k <= 3 && __CPROVER_is_fresh(a, 4 * sizeof(cfg_opt_t)) && (a)[cfgv_term_k].name == NULL \
+	&& (cfgv_term_k <= 0 || (a)[0].name != NULL) && (cfgv_term_k <= 1 || (a)[1].name != NULL) && (cfgv_term_k <= 2 || (a)[2].name != NULL))
+#else
+#define CFGV_OPTARRAY(a) (0 <= cfgv_term_k && cfgv_term_k < CFGV_MAXOPTS && __CPROVER_is_fresh(a, CFGV_MAXOPTS * sizeof(cfg_opt_t)) && (a)[cfgv_term_k].name == NULL \
+	&& __CPROVER_forall { int k_; (0 <= k_ && k_ < cfgv_term_k) ==> (a)[k_].name != NULL })
+#endif
+int cfg_numopts(cfg_opt_t *opts)
+__CPROVER_requires(opts == NULL || CFGV_OPTARRAY(opts))
+__CPROVER_assigns()
+__CPROVER_ensures(__CPROVER_return_value == (opts ? cfgv_term_k : 0));
+
+cfg_opt_t *cfg_getnopt(cfg_t *cfg, unsigned int index)
+__CPROVER_requires(cfg == NULL || (__CPROVER_is_fresh(cfg, sizeof(*cfg)) && (cfg->opts == NULL || CFGV_OPTARRAY(cfg->opts))))
+__CPROVER_assigns()
+__CPROVER_ensures(__CPROVER_return_value == ((cfg && cfg->opts && index < (unsigned int)cfgv_term_k) ? &cfg->opts[index] : NULL));
 #endif
